@@ -120,7 +120,7 @@ func exposerTable(c *core.Ctx, l *lifecycleRoles) (rs rows, runs int, undecided 
 			}
 			if b, ok := typ.Underlying().(*types.Basic); ok && b.Info()&types.IsInteger != 0 && obj == f {
 				// a policy field of a small named type: the factory only ever holds the one constant it is constructed with
-				if named := core.NamedOf(ex.Signature.Recv().Type()); named != nil {
+				if named := ownerOf(ex); named != nil {
 					if stores, _ := c.FieldAccesses(named, fname); len(stores) > 0 {
 						var only *ssa.Const
 						for _, s2 := range stores {
@@ -409,7 +409,7 @@ func injectTable(c *core.Ctx, maxLen int) (rs rows, runs int, undecided string) 
 	holder := c.Named("component_definition", "Holder")
 	isReq := c.DeclaredMethod(prop, "IsRequired")
 	isSelf := c.DeclaredMethod(meta, "IsSelf")
-	dependOn := c.DeclaredMethod(meta, "dependOn")
+	dependOn := dependentsRecorder(c)
 	stack := c.DeclaredMethod(holder, "Stack")
 	if isReq == nil || isSelf == nil {
 		return rs, 0, "IsRequired / IsSelf not found"
